@@ -101,10 +101,28 @@ def _ay_frames(tb):
     return frames
 
 
+def _involves_recursion_limit(e):
+    seen, stack = set(), [e]
+    while stack:
+        x = stack.pop()
+        if x is None or id(x) in seen:
+            continue
+        seen.add(id(x))
+        if isinstance(x, RecursionError):
+            return True
+        stack.append(x.__cause__)
+        stack.append(x.__context__)
+    return False
+
+
 def exc_signature(e, with_frames=True, depth=0):
     """(type, normalised message, cause chain, context chain, awesomeyaml frames)."""
     if e is None:
         return None
+    if depth == 0 and _involves_recursion_limit(e):
+        # where the recursion limit trips - and which nested message formatting it interrupts - depends on the depth of
+        # the caller's stack (harness frames and monitoring callbacks included): only the outcome is an observation
+        return {'type': type(e).__name__, 'recursion_limit_involved': True}
     sig = {'type': type(e).__name__, 'msg': norm_text(e)}
     if with_frames:
         # where exactly the recursion limit trips depends on the depth of the caller's stack (harness frames included):
